@@ -232,7 +232,8 @@ impl Prop for NoEligibleFrame {
             ensure!(ms.gv.as_ref().map(|g| g.1.iter().all(|s| !*s)).unwrap_or(false), "gv-off-context", "stream {}: silence labels must switch GV off for all their states", si);
             let plain = ModelStream { vector_length: ms.vector_length, stream: ms.stream, gv: None, windows: ms.windows };
             let want = MlpgAdjust::new(c.weight, cond.get_msd_threshold(si), plain).create(&durations);
-            let same = want.len() == got.len() && want.iter().zip(got.iter()).all(|(x, y)| x.iter().zip(y).all(|(p, q)| p.to_bits() == q.to_bits()));
+            let same = want.len() == got.len()
+                && want.iter().zip(got.iter()).all(|(x, y)| x.len() == y.len() && x.iter().zip(y).all(|(p, q)| p == q || ((p - q).abs() <= 1e-9 * p.abs().max(q.abs()).max(1e-6) && *p != NODATA && *q != NODATA)));
             ensure!(same, "gv-no-eligible", "stream {}: with no GV-eligible frame the trajectory differs from the plain maximum-likelihood solution (weight {})", si, c.weight);
         }
         let mut rep = Report::new();
